@@ -81,6 +81,21 @@ theorem machine_leaf_events_are_the_results (steps : Array (Step J)) (src : Src 
   have := leaf_events_are_the_results steps.toList hne hs hsil src.rootNode
   simpa using this
 
+/-- … and with predicates that raise: the trace of the run through the first exception (the
+iterator is then stuck in the action that raises) still pairs every leaf event with a result -/
+theorem machine_leaf_events_are_the_results_any_predicate (steps : Array (Step J)) (src : Src J) (hp : PredsClean steps)
+    (hne : steps.toList ≠ []) (hs : PredsStamped steps.toList) (hsil : PredsSilent steps.toList) :
+    ∃ k, leafHits steps.size (hrun J.view steps src k freshIter).2 = resultsOf (hrun J.view steps src k freshIter).2 ∧
+      ((hrun J.view steps src k freshIter).1.act = .done ∨
+       ∃ e evs', action J.view steps src (hrun J.view steps src k freshIter).1 =
+          ((hrun J.view steps src k freshIter).1, evs', .raised e)) := by
+  have hx := leaf_hits_are_results_x steps.toList hne hs hsil 0 src.rootNode
+  have hq := leaf_hits_are_results steps.toList hne hs hsil 0 src.rootNode
+  simp only [Nat.zero_add, Array.length_toList] at hx hq
+  rcases full_run_x steps src hp with ⟨_, k, stD, h1, h2⟩ | ⟨e, _, k, stU, evs', h1, h2, _⟩
+  · exact ⟨k, by rw [h1]; exact hq, .inl (by rw [h1]; exact h2)⟩
+  · exact ⟨k, by rw [h1]; exact hx, .inr ⟨e, evs', by rw [h1]; exact h2⟩⟩
+
 /-- the statement is not vacuous, and it counts what it should: `$.a[*]` over two members -/
 example : leafHits 2 (stream [Step.key "a", .idxWc] 0 (.root (.obj [("a", .arr [.int 1, .int 2])]))) =
     [.child (.child (.root (.obj [("a", .arr [.int 1, .int 2])])) (.key "a") (.arr [.int 1, .int 2])) (.idx 0) (.int 1),
